@@ -117,6 +117,8 @@ class Check:
     def violation(self, key: str, what: str, replay: dict):
         """A concrete failing input on the REAL code (or on model+code). `key` identifies the call site /
         minimal history; it is what known findings are matched on."""
+        if any(v["key"] == key for v in self.violations):
+            return
         self.violations.append({"key": key, "what": what, "replay": replay})
 
     def write_replay(self, name: str, data: dict) -> str:
